@@ -47,6 +47,7 @@ import (
 	"runtime"
 	"sort"
 	"strings"
+	"sync/atomic"
 	"time"
 
 	"reduction.dev/reduction/util/verifhook"
@@ -86,9 +87,12 @@ type world struct {
 	spListing                           map[string]int64
 	spFailed                            bool
 	lastErr                             string
+	restoring                           bool
 	stop                                bool // behaviour ended early (expected failure of the artifact, drift)
 	failed                              bool // a violation was reported
 }
+
+var tuneOn atomic.Bool
 
 func main() { mbt.Main(replay) }
 
@@ -161,6 +165,9 @@ func replay(bi int, beh []mbt.Step, in *mbt.Input, res *mbt.Result) {
 
 	mem, small, amp := int64(in.CfgInt("MemTable", 0)), int64(in.CfgInt("SmallestLevel", 0)), int64(in.CfgInt("MaxSizeAmpPct", 0))
 	verifhook.Install(nil, func(name string, def int64) int64 {
+		if !tuneOn.Load() { // only the operators' databases (opened during Boot) are tuned, not read-back copies
+			return def
+		}
 		switch {
 		case name == "dkv.memTableSize" && mem > 0:
 			return mem
@@ -209,7 +216,10 @@ func replay(bi int, beh []mbt.Step, in *mbt.Input, res *mbt.Result) {
 			w.c.Retire()
 		}
 	}()
-	if _, err := c.Boot(); err != nil {
+	tuneOn.Store(true)
+	_, err = c.Boot()
+	tuneOn.Store(false)
+	if err != nil {
 		w.errorf("boot: %v", err)
 		return
 	}
@@ -287,11 +297,15 @@ func (w *world) stepEv(st mbt.Step) {
 			w.errorf("event %d out of sequence (fed %d)", e, w.fed)
 			return
 		}
+		// one record at a time: records of different splits are read by different runners, and the state a
+		// handler must be given is only determined when their order is
 		r := w.rec(g)
 		w.c.PermitRead(w.c.SplitOwner(r.Split), r.Split, 1)
 		w.fed++
+		if !w.waitGivens(w.c, w.fed, 0) || w.failed {
+			return
+		}
 	}
-	w.waitGivens(w.c, w.fed, 0)
 }
 
 // waitGivens waits until `n` handler invocations have happened in cluster c (from log index `from`) and
@@ -301,7 +315,7 @@ func (w *world) waitGivens(c *cluster.Cluster, n, from int) bool {
 	for {
 		gs := c.Givens(from)
 		if len(gs) >= n {
-			w.checkGivens(gs)
+			w.checkGivens(gs[n-1:])
 			return true
 		}
 		if time.Now().After(deadline) {
@@ -689,13 +703,22 @@ func (w *world) stepCopy(st mbt.Step) {
 	}
 	// the copies run freely: the next thing is the read for the next operator, the URI, or an error
 	if !last {
-		deadline := time.Now().Add(wait)
+		limit := wait
+		if !must {
+			limit = 400 * time.Millisecond // see below: a failed artifact is silent
+		}
+		deadline := time.Now().Add(limit)
 		for w.read == nil {
 			if a, err := w.c.Sched().Await(gate.Point(cluster.PStoreRead), 20*time.Millisecond); err == nil {
 				w.read = a
 				return
 			}
-			if w.drainErrors("") {
+			failed := w.drainErrors("")
+			if !failed && time.Now().After(deadline) {
+				failed = true
+				w.lastErr = "the artifact code neither went on to the next operator nor reported an error within " + limit.String()
+			}
+			if failed {
 				if must {
 					w.violate(fmt.Sprintf("building savepoint %d failed at operator %d although its checkpoint %d is retained and complete in working storage: %s", id, o, id, w.lastErr), "copied", w.lastErr)
 					return
@@ -704,31 +727,35 @@ func (w *world) stepCopy(st mbt.Step) {
 				w.res.Count("sp_failed_as_modelled", 1)
 				return
 			}
-			if time.Now().After(deadline) {
-				w.errorf("artifact: no read for operator %d and no error", o+1)
-				return
-			}
 		}
 		return
 	}
-	deadline := time.Now().Add(wait)
+	// Store.errChan is never set (NewStore ignores params.ErrChan): a failed artifact is silent. Where the
+	// model says the copy cannot succeed (must = FALSE) a short quiet period decides "no savepoint" - that
+	// outcome is never a verdict.
+	limit := wait
+	if !must {
+		limit = 400 * time.Millisecond
+	}
+	deadline := time.Now().Add(limit)
 	for {
 		uri, err := w.c.SavepointURI(context.Background(), id)
 		if err == nil {
 			w.spURI = uri
 			break
 		}
-		if w.drainErrors("") {
+		failed := w.drainErrors("")
+		if !failed && time.Now().After(deadline) {
+			failed = true
+			w.lastErr = "no savepoint URI and no error within " + limit.String() + " (" + err.Error() + ")"
+		}
+		if failed {
 			if must {
-				w.violate(fmt.Sprintf("building savepoint %d failed although checkpoint %d is retained and complete in working storage: %s", id, id, w.lastErr), "savepoint URI", w.lastErr)
+				w.violate(fmt.Sprintf("savepoint %d was not produced although checkpoint %d is retained and complete in working storage and its job snapshot exists: %s", id, id, w.lastErr), "savepoint URI", w.lastErr)
 				return
 			}
 			w.spFailed, w.stop = true, true
 			w.res.Count("sp_failed_as_modelled", 1)
-			return
-		}
-		if time.Now().After(deadline) {
-			w.errorf("savepoint %d: neither a URI nor an error", id)
 			return
 		}
 		time.Sleep(time.Millisecond)
@@ -826,6 +853,9 @@ func spCopyPath(spDir, uri string) string {
 // checkClosed: files(savepoint n) contains, per operator, the checkpoints document with an entry for n
 // and every file THAT entry references.
 func (w *world) checkClosed() {
+	if w.in.CfgBool("NoClosedCheck", false) { // self-test knob: the restore alone must then catch an open savepoint
+		return
+	}
 	spDir := filepath.Dir(w.spURI)
 	ck, err := cluster.ReadJobCheckpointFile(w.spURI)
 	if err != nil {
@@ -954,9 +984,18 @@ func (w *world) stepWipe(st mbt.Step) {
 		return
 	}
 	w.c.Retire()
-	time.Sleep(5 * time.Millisecond)
+	// the old job is dead when its storage is deleted: let background flushes / compactions of the retired
+	// operators' databases finish (they would panic on a vanished directory - in the harness process)
+	w.quiesce(w.c.WorkDir())
 	// rm -rf of everything but the savepoints directory
-	if err := os.RemoveAll(w.c.WorkDir()); err != nil {
+	var err error
+	for i := 0; i < 5; i++ {
+		if err = os.RemoveAll(w.c.WorkDir()); err == nil {
+			break
+		}
+		time.Sleep(20 * time.Millisecond)
+	}
+	if err != nil {
 		w.errorf("wipe: %v", err)
 		return
 	}
@@ -971,6 +1010,35 @@ func (w *world) stepWipe(st mbt.Step) {
 	// table cleanups of the retired operators may run now; they must find nothing to harm
 	time.Sleep(2 * time.Millisecond)
 	os.RemoveAll(filepath.Join(w.dir, "work"))
+}
+
+// quiesce waits until the directory tree has not changed for a while and holds no temporary files.
+func (w *world) quiesce(dir string) {
+	sig := func() string {
+		var sb strings.Builder
+		l := listing(dir)
+		names := make([]string, 0, len(l))
+		for p := range l {
+			names = append(names, p)
+		}
+		sort.Strings(names)
+		for _, p := range names {
+			fmt.Fprintf(&sb, "%s:%d;", p, l[p])
+		}
+		return sb.String()
+	}
+	deadline := time.Now().Add(5 * time.Second)
+	last, stable := sig(), 0
+	for stable < 4 && time.Now().Before(deadline) {
+		time.Sleep(15 * time.Millisecond)
+		runtime.GC()
+		cur := sig()
+		if cur == last {
+			stable++
+		} else {
+			stable, last = 0, cur
+		}
+	}
 }
 
 func (w *world) stepRestore(st mbt.Step) {
@@ -988,7 +1056,10 @@ func (w *world) stepRestore(st mbt.Step) {
 	}
 	c2.SetFirstGeneration(10)
 	w.c = c2
+	w.restoring = true
+	tuneOn.Store(true)
 	_, err = c2.Boot()
+	tuneOn.Store(false)
 	if err != nil {
 		if strings.Contains(err.Error(), cluster.ErrBootTimeout.Error()) && !logHas(c2, "panic") && !deployFailed(c2) {
 			w.errorf("restore: %v", err)
@@ -1130,7 +1201,7 @@ func (w *world) tickAndCheck(c *cluster.Cluster, id uint64, cursors map[int]int,
 
 // checkStrays: acknowledgements / StartCheckpoint calls of a checkpoint the model does not know.
 func (w *world) checkStrays() {
-	if w.c == nil || w.c.Sched() == nil {
+	if w.c == nil || w.c.Sched() == nil || w.restoring {
 		return
 	}
 	if n, ids := w.countStarts(); n > 0 {
